@@ -871,9 +871,13 @@ class ModelFactory():
                     "is already the name of a mosaik API method."
                 )               
             self.models[model] = ModelMock(self._world, self, model, self._proxy)
-            # Make public models accessible
+        # Make public models accessible (only after all models have been
+        # parsed: a model named like an attribute of this factory, e.g.
+        # "type", must not influence how the other models are parsed)
+        models = self.models
+        for model, props in self.meta["models"].items():
             if props.get("public", True):
-                setattr(self, model, self.models[model])
+                setattr(self, model, models[model])
 
         # Bind extra_methods to this instance:
         for meth_name in self.meta.get("extra_methods", []):
